@@ -76,11 +76,11 @@ static void run_r(void)
 
 static void run_w(void)
 {
-	static char cmd[256];
+	static char cmd[512];
 	static char *argv[] = { "/bin/sh", "-c", cmd, NULL };
 	int fd;
 
-	snprintf(cmd, sizeof(cmd), "cat > %s; readlink /proc/$$/fd/1 >> %s", tmpl, tmpl);
+	snprintf(cmd, sizeof(cmd), "cat > %s; L=$(readlink /proc/$$/fd/1); echo $L >> %s; true", tmpl, tmpl);
 	IV_POPEN_REQUEST_INIT(&req);
 	req.file = "/bin/sh";
 	req.argv = argv;
